@@ -17,6 +17,7 @@ Not decided: numeric values, ties, the 1e-6 signal threshold, the neighbourhood 
 import ast
 
 from vlib import q
+from vlib.pat import Pat, returned
 from vlib.front import unparse, dotted, const_value, AnchorMissing
 from vlib.shape import Shape, Space, Ix, Q, D, BoolT, StrT, NoneT, SizeOf, UNK, is_unk, Arr, Rec, Tup, B
 from obligations.shape_tables import (model_attrs, axis_dir, provenance, mask_text, M, Tmpl, Chan, Samp, Loc, AMP, AMPWH, UM, Shank)
@@ -188,15 +189,30 @@ def run(ctx):
               'get_closest_channels does not return the first n entries of the order (%s)' % [r.msg for r in S.reports][:1])
     x0 = [a for a in gc.nodes(ast.Assign) if isinstance(a.value, ast.Subscript) and unparse(a.value).replace(' ', '') == '%s[%s]' % (gc.params[0], gc.params[1])]
     ctx.check(bool(x0), 'C05.A4', gc, x0[0] if x0 else 'get_closest_channels', 'distances are measured from the position of the given channel', 'distances are not measured from channel_positions[channel_index]')
-    call = [c for c in repo.lookup_method(cls, '_find_best_channels').calls() if dotted(c.func) == 'get_closest_channels']
-    okc = bool(call) and [unparse(a) for a in call[0].args] == ['self.channel_positions', 'best_channel', 'self.n_closest_channels']
-    ctx.check(okc, 'C05.D1', repo.lookup_method(cls, '_find_best_channels'), call[0] if call else '_find_best_channels',
-              'the neighbourhood is that of the PEAK channel with the model\'s neighbourhood size', 'the neighbourhood is not get_closest_channels(positions, best_channel, n_closest_channels)')
+    fbc = repo.lookup_method(cls, '_find_best_channels')
+    call = [c for c in fbc.calls() if dotted(c.func) == 'get_closest_channels']
+    if not call or len(call[0].args) < 3:
+        ctx.undecided('C05.D1', fbc, 'the call computing the neighbourhood of the peak channel was not recognised')
+    else:
+        a0, a1, a2 = call[0].args[:3]
+        peak = fbc.expand(a1)
+        is_peak = any(isinstance(n, ast.Call) and ((dotted(n.func) or '').endswith('argmax') or q.method_name(n) == 'argmax') for n in ast.walk(peak)) or \
+            (isinstance(a1, ast.Name) and any(isinstance(x, ast.Assign) and isinstance(x.targets[0], ast.Name) and x.targets[0].id == a1.id and
+                                              any(isinstance(n, ast.Call) and ((dotted(n.func) or '').endswith('argmax') or q.method_name(n) == 'argmax') for n in ast.walk(x.value))
+                                              for x in fbc.nodes(ast.Assign)))
+        g = Pat().m('self.channel_positions', a0) and is_peak and Pat().m('self.n_closest_channels', a2)
+        b_ = not g and (not Pat().m('self.channel_positions', a0) or not Pat().m('self.n_closest_channels', a2) or isinstance(peak, ast.Constant))
+        if g:
+            ctx.holds('C05.D1', fbc, 'the neighbourhood is that of the PEAK channel with the model\'s neighbourhood size', call[0])
+        elif b_:
+            ctx.violated('C05.D1', fbc, call[0], 'the neighbourhood is `%s`, not get_closest_channels(all channel positions, peak channel, n_closest_channels)' % unparse(call[0]))
+        else:
+            ctx.undecided('C05.D1', fbc, 'arguments of the neighbourhood call not recognised', call[0])
     # ---- D1 sparse provenance
     if isinstance(sparse_rec, Rec) and isinstance(sparse_rec.fields.get('channel_ids'), Arr):
         prov = provenance(sparse_rec.fields['channel_ids'].axes[0])
         masks = [s.info.get('mask') for s in prov if s.kind == 'Sub' and s.info.get('mask')]
-        used = [m for m in masks if isinstance(m[1], Ix) and m[1].space is Chan and m[0] == 'NotEq' and const_value(m[3].comparators[0]) == -1]
+        used = [m for m in masks if isinstance(m[1], Ix) and m[1].space is Chan and m[0] == 'NotEq' and -1 in (const_value(m[3].comparators[0]), const_value(m[3].left))]
         sig = [m for m in masks if isinstance(m[1], Q) and m[0] in ('Gt', 'GtE') and any(t.startswith('max:Samp') for t in m[1].tags)]
         roots = [s for s in prov if s.kind == 'base']
         ctx.check(bool(used), 'C05.D1', gt, 'unused channels', 'sparse: unused (-1) channel slots are dropped', 'sparse: unused (-1) channel slots are not dropped')
